@@ -1538,6 +1538,21 @@ impl Checker {
     /// the imported file. Returns `ImportShape::Resolved` with the exported tuple
     /// shape, or `ImportShape::Unresolved` if no working directory is set.
     fn resolve_import(&mut self, path: &str, pos: &Position) -> Shape {
+        // The standard library is compiled into the binary. A file that
+        // happens to be at std/... next to the importing file is not what
+        // the import yields.
+        let main_separator = format!("{}", std::path::MAIN_SEPARATOR);
+        let std_prefix = format!("std{}", main_separator);
+        if path
+            .replace("/", &main_separator)
+            .replace("\\", &main_separator)
+            .starts_with(&std_prefix)
+        {
+            return Shape::Import(ImportShape::Unresolved(PositionedItem::new(
+                path.into(),
+                pos.clone(),
+            )));
+        }
         let working_dir = match &self.working_dir {
             Some(dir) => dir.clone(),
             None => {
